@@ -130,6 +130,45 @@ MUTANTS = [
      "            deblend_label_map = _update_deblend_label_map(deblend_label_map,\n"
      "                                                          relabel_map)\n",
      "            pass\n"),
+    ('C05', 'reassign_without_cache_reset', 'segmentation/core.py',
+     "        data_new = relabel_map[self.data]\n"
+     "        self._reset_lazyproperties()  # reset all cached properties\n"
+     "        self._data = data_new  # use _data to avoid validation\n"
+     "        self._update_deblend_label_map(relabel_map)\n",
+     "        data_new = relabel_map[self.data]\n"
+     "        _keep = self.__dict__.get('areas')\n"
+     "        self._reset_lazyproperties()  # reset all cached properties\n"
+     "        if _keep is not None:\n"
+     "            self.__dict__['areas'] = _keep\n"
+     "        self._data = data_new  # use _data to avoid validation\n"
+     "        self._update_deblend_label_map(relabel_map)\n"),
+    ('C05', 'relabel_keeps_max_label', 'segmentation/core.py',
+     "        self.__dict__['labels'] = new_labels\n",
+     "        self.__dict__['labels'] = new_labels\n"
+     "        self.__dict__['max_label'] = len(new_label_map) - 1\n"),
+    ('C05', 'labels_from_raw_slices_without_none_filter',
+     'segmentation/core.py',
+     "                if slc is not None:\n                    labels.append(label)",
+     "                labels.append(label)"),
+    ('C05', 'partial_overlap_inverted', 'segmentation/core.py',
+     "        if not partial_overlap:\n            interior_labels",
+     "        if partial_overlap:\n            interior_labels"),
+    ('C05', 'data_setter_keeps_deblend_map', 'segmentation/core.py',
+     "        self.__dict__['_deblend_label_map'] = {}  # reset deblended labels",
+     "        self.__dict__.setdefault('_deblend_label_map', {})"),
+    ('C05', 'relabel_consecutive_ignores_start_label', 'segmentation/core.py',
+     "        if ((self.labels[0] == start_label)\n",
+     "        if ((self.labels[0] == 1)\n"),
+    ('C05', 'relabel_keeps_stale_slices_after_reassign', 'segmentation/core.py',
+     "        self._reset_lazyproperties()  # reset all cached properties\n"
+     "        self._data = data_new  # use _data to avoid validation\n"
+     "        self._update_deblend_label_map(relabel_map)\n",
+     "        _sl = self.__dict__.get('slices', None)\n"
+     "        self._reset_lazyproperties()  # reset all cached properties\n"
+     "        self._data = data_new  # use _data to avoid validation\n"
+     "        if _sl is not None and not relabel and np.all(np.asarray(new_label) != 0):\n"
+     "            self.__dict__['slices'] = _sl\n"
+     "        self._update_deblend_label_map(relabel_map)\n"),
 ]
 
 
